@@ -527,6 +527,8 @@ func registerSchedIntrinsics() {
 		if !m.locked {
 			panic(targetPanic{v: Iface{}, desc: "sync: Cond.Wait without holding L", pos: x.posOf(callerInstr(fr))})
 		}
+		// scheduling point before the waiter registers itself (a Broadcast that lands here is lost)
+		x.yieldOp(fr, "Cond.Wait", p, true)
 		th := x.cur
 		// atomically: unlock and start waiting
 		m.locked = false
